@@ -72,9 +72,12 @@ Definition unescape (x : str) : str := unesc x 0.
 Definition rt_attrs (a : list (str * str)) : list (str * str) :=
   map (fun kv => (fst kv, unescape (snd kv))) a.
 
-(* Meaningful for item lists without [SRaw] and without two adjacent text items (the tokenizer
-   merges adjacent character data); the correspondence run checks it against the real RawToken
-   stream of the implementation's output. *)
+(* Meaningful for item lists without [SRaw].  Adjacent character data is NOT merged here although
+   the tokenizer returns one CharData for it: under [normalize] (trim, drop blank runs) the two
+   readings coincide whenever at most one of the adjacent runs is non-blank, which is the only
+   adjacency the encoders produce (text followed by indentation); lemma text_then_ws_merges states
+   it, and the correspondence run compares [normalize] of the real RawToken stream of every indented
+   / beautified output with [normalize] of this function. *)
 Definition rt1 (i : sitem) : list rtok :=
   match i with
   | SI (IOpen n a) => [RStart n (rt_attrs a)]
@@ -105,16 +108,18 @@ Definition ws_text (w : list wsc) : list sitem :=
   match w with [] => [] | _ => [SI (IText (ws_str w))] end.
 
 (* one whitespace run (possibly empty) from [ws] at every boundary between two items, before the
-   first and after the last, except next to character data *)
-Fixpoint insert_ws_from (ws : list (list wsc)) (prev_text : bool) (its : list sitem) : list sitem :=
+   first and after the last, except in front of character data (text directly follows the ">" of its
+   start tag; the indented encoder does write a line break and padding AFTER a text run that
+   precedes child elements) *)
+Fixpoint insert_ws_from (ws : list (list wsc)) (its : list sitem) : list sitem :=
   match its with
-  | [] => match ws with w :: _ => if prev_text then [] else ws_text w | [] => [] end
+  | [] => match ws with w :: _ => ws_text w | [] => [] end
   | i :: t =>
       let w := match ws with w :: _ => w | [] => [] end in
       let ws' := match ws with _ :: ws' => ws' | [] => [] end in
-      (if prev_text || is_text_item i then [] else ws_text w) ++ i :: insert_ws_from ws' (is_text_item i) t
+      (if is_text_item i then [] else ws_text w) ++ i :: insert_ws_from ws' t
   end.
-Definition insert_ws (ws : list (list wsc)) (its : list sitem) : list sitem := insert_ws_from ws false its.
+Definition insert_ws (ws : list (list wsc)) (its : list sitem) : list sitem := insert_ws_from ws its.
 
 (* ---------------- normalisation ---------------- *)
 Definition xml_ws : str := [" "%char; ascii_of_nat 9; ascii_of_nat 10; ascii_of_nat 13].
